@@ -22,6 +22,10 @@
 (*     normalized = 0 (and the value really need not be canonical:         *)
 (*     half of the non-canonical zero P is P).                             *)
 (*  E2 fe_half: the wrapper additionally requires magnitude <= 31.         *)
+(*  E3 fe_equal: the header (and the function's own VERIFY precondition)   *)
+(*     admit magnitude 31 for b; the body computes negate(a,1) + b, whose  *)
+(*     magnitude 2 + 31 exceeds 32, so VERIFY builds abort for b.m = 31.   *)
+(*     The machine uses the effective bound 30.                            *)
 (***************************************************************************)
 EXTENDS Curve, Integers
 
@@ -66,7 +70,7 @@ FePre(regs, op) ==
     [] nm \in { "set_b32_mod", "set_b32_limit" } -> Len(k) = 32
     [] nm = "stor"     -> FeValid(A) /\ A.n = 1
     [] nm \in { "get_b32", "is_zero", "is_odd" } -> FeValid(A) /\ A.n = 1
-    [] nm = "equal"    -> FeValid(A) /\ FeValid(Bq) /\ A.m <= 1 /\ Bq.m <= 31
+    [] nm = "equal"    -> FeValid(A) /\ FeValid(Bq) /\ A.m <= 1 /\ Bq.m <= 30          \* E3 (header: 31)
     [] nm = "cmp_var"  -> FeValid(A) /\ FeValid(Bq) /\ A.n = 1 /\ Bq.n = 1
     [] nm \in { "normalizes_to_zero", "normalizes_to_zero_var", "is_square_var" } -> FeValid(A)
     [] OTHER -> FALSE
